@@ -55,5 +55,19 @@ PLANS['C03'] = Plan(
     technique='deductive: own VC generator over the real AST + z3 (ghost replay cursor); bounded exhaustive cross-check for replay',
 )
 
+PLANS['C16'] = Plan(
+    'C16', ['src/correlation/vectorise.py::vectorisePositions', 'src/correlation/optical_map.py::toRelativeGenomicPositions',
+            'src/correlation/peaks_selector.py::PeaksSelector.selectPeaks'], 'other',
+    "Proved for all inputs (deductive): vectorisePositions (bit k set iff a label lies in [start+k*res, start+(k+1)*res), every label between start "
+    "and end covered; ghost bin boundaries and witness array), toRelativeGenomicPositions (bin centre, within resolution/2 of every coordinate of the bin; "
+    "element-wise numpy broadcasting assumed), PeaksSelector.selectPeaks (the count highest-scoring peaks in descending order; sorted() assumed stable "
+    "ordered permutation). BOUNDED, not proved: blur (zip_longest/any/numpy) and CorrelationResult.createPeaks (numpy argpartition) are checked "
+    "exhaustively on small cases through the real functions; SequenceGenerator.positionsToSequence is their composition.",
+    bounded=_lazy('bcheck.c16', 'bounded'), replay=_lazy('bcheck.c16', 'replay'),
+    technique='deductive (own VC generator + z3) for vectorise / bin-to-bp / seed selection; bounded exhaustive monitors for blur and createPeaks',
+    assumptions=['numpy array arithmetic is element-wise (toRelativeGenomicPositions proved for one coordinate)',
+                 'blur and createPeaks: bounded only'],
+)
+
 NOT_APPLICABLE = {}
 FIX_COMMITS = ['a1f5353']
